@@ -210,25 +210,27 @@ def run_ref_text_case(t, cfg, mid, tail, v21, allow):
     return False
 
 
-def ref_prop(t: int, cfg: int, allow: bool) -> bool:
+def ref_prop(t: int, cfg: int, allow: bool, v20: bool = False) -> bool:
     """
     pre: 0 <= t < NTYPES and 0 <= cfg < NCFG
     post: _
     """
-    t, cfg, allow = pick(t, NTYPES), pick(cfg, NCFG), pickb(allow)
+    t, cfg, allow, v20 = pick(t, NTYPES), pick(cfg, NCFG), pickb(allow), pickb(v20)
     with Native():
-        ok = run_ref_case(t, cfg, allow)
+        ok = run_ref_case(t, cfg, allow, v20)
     V.reached()
     return ok
 
 
-def run_ref_case(t, cfg, allow):
+def run_ref_case(t, cfg, allow, v20=False):
     ty = TYPES[t]
-    prop = P.ReferenceProperty(spec_version="2.1", **REFCFG[cfg])
+    prop = P.ReferenceProperty(spec_version="2.0" if v20 else "2.1", **REFCFG[cfg])
     # extension-definition is a meta object in the specification; the library files it under SDO (not judged here, see DESIGN.md)
     cls = {"identity": "SDO", "malware": "SDO", "extension-definition": "SDO", "ipv4-addr": "SCO", "file": "SCO", "relationship": "SRO",
            "sighting": "SRO"}.get(ty)
-    registered = ty not in ("x-custom", "unregistered-type")
+    registered = ty not in ("x-custom", "unregistered-type") and not (v20 and ty in ("language-content", "extension-definition"))   # 2.1-only types
+    if not registered:
+        cls = None
     is_custom = not registered or ty.startswith("x-")
     c = REFCFG[cfg]
     names = c.get("valid_types", c.get("invalid_types"))
